@@ -4,7 +4,9 @@ T_Empty == {}
 Verdict(r) == IF r.kind = "ctor" THEN Fails(BarClauses(r))
               ELSE IF r.raised # "" THEN <<"raised">>
               ELSE IF ~InSplitDomain(r) THEN <<>>
-              ELSE Fails(BarSplitClauses(r))
+              ELSE Fails(BarSplitClauses(r) \o
+                         \* the Composition entry point yields the bars of the same steps done by hand (compA = compB = <<>> when not exercised)
+                         << <<"composition-entry-agrees", r.compA = r.compB>> >>)
 Info(r) == IF r.kind = "ctor" THEN (IF r.raised = "" THEN "accepted" ELSE "rejected")
            ELSE IF r.raised # "" THEN "raised" ELSE IF InSplitDomain(r) THEN "judged" ELSE "out-of-domain"
 TraceInit == TraceStart /\ meta = <<>> /\ maxDur = 0 /\ t = 0 /\ grid = <<>>
